@@ -1421,6 +1421,7 @@ func (self *LockDB) GetOrNewLockManager(command *protocol.LockCommand) *LockMana
 		fastValue.manager = lockManager
 		atomic.AddUint32(&fastValue.count, 1)
 		atomic.StoreUint32(&fastValue.lock, 2)
+		verifPoint("mgr.published", lockManager, command)
 		atomic.AddUint32(&lockManager.refCount, 1)
 		atomic.AddUint32(&lockManager.state.KeyCount, 1)
 		return lockManager
@@ -1467,6 +1468,7 @@ func (self *LockDB) GetOrNewLockManager(command *protocol.LockCommand) *LockMana
 		fastValue.manager = lockManager
 		atomic.AddUint32(&fastValue.count, 1)
 		atomic.StoreUint32(&fastValue.lock, 2)
+		verifPoint("mgr.published", lockManager, command)
 		atomic.AddUint32(&lockManager.refCount, 1)
 		atomic.AddUint32(&lockManager.state.KeyCount, 1)
 		return lockManager
@@ -1484,6 +1486,7 @@ func (self *LockDB) GetOrNewLockManager(command *protocol.LockCommand) *LockMana
 	lockManager.fastKeyValue = fastValue
 	atomic.AddUint32(&fastValue.count, 1)
 	self.mGlock.Unlock()
+	verifPoint("mgr.published", lockManager, command)
 	atomic.AddUint32(&lockManager.refCount, 1)
 	atomic.AddUint32(&lockManager.state.KeyCount, 1)
 	atomic.AddUint64(&lockManager.state.SlowKeyCount, 1)
